@@ -18,6 +18,8 @@ for sid in ids:
     r = subprocess.run(["git", "-C", "/repo", "apply", os.path.join(d, "patch.diff")])
     if r.returncode:
         print(sid, "patch does not apply"); continue
+    import shutil
+    saved = {p: open(os.path.join(V, "evidence", p + ".json")).read() for p in props if os.path.exists(os.path.join(V, "evidence", p + ".json"))}
     try:
         res = {}
         for p in props:
@@ -30,4 +32,6 @@ for sid in ids:
         print(sid, {p: (v["exit"], v["failed_obligations"][:3], v["other"][:2]) for p, v in res.items()})
     finally:
         subprocess.run(["git", "-C", "/repo", "checkout", "--", "."])
+        for p, txt in saved.items():
+            open(os.path.join(V, "evidence", p + ".json"), "w").write(txt)
 json.dump(out, open(os.path.join(V, "seeded", "last_run.json"), "w"), indent=1)
